@@ -45,6 +45,7 @@ limitations under the License.
 #include <photon/common/alog-functionptr.h>
 #include <photon/thread/thread-key.h>
 #include <photon/thread/arch.h>
+#include <photon/common/verif-hook.h>
 
 /* notes on the scheduler:
 
@@ -134,6 +135,9 @@ namespace photon
     // carries the optional trim()/stats() of whichever allocator is installed.
     static StackAllocator photon_thread_stack_allocator;
 
+#ifdef PHOTON_VERIF
+    namespace verif { hook_t hook = nullptr; }
+#endif
     struct vcpu_t;
     struct thread;
     class Stack
@@ -390,6 +394,7 @@ namespace photon
             q.push_back(obj);
             obj->idx = q.size() - 1;
             up(obj->idx);
+            verif_dump(verif_push, obj);
             return 0;
         }
 
@@ -399,6 +404,7 @@ namespace photon
             if (q.size() == 1) {
                 q.pop_back();
                 ret->idx = -1;
+                verif_dump(verif_pop_front, ret);
                 return ret;
             }
             q[0] = q.back();
@@ -406,6 +412,7 @@ namespace photon
             q.pop_back();
             down(0);
             ret->idx = -1;
+            verif_dump(verif_pop_front, ret);
             return ret;
         }
 
@@ -416,6 +423,7 @@ namespace photon
             if ((size_t)id == q.size() - 1){
                 q.pop_back();
                 obj->idx = -1;
+                verif_dump(verif_pop, obj);
                 return 0;
             }
 
@@ -423,6 +431,7 @@ namespace photon
                 assert(id == 0);
                 q.pop_back();
                 obj->idx = -1;
+                verif_dump(verif_pop, obj);
                 return 0;
             }
             q[id] = q.back();
@@ -430,8 +439,16 @@ namespace photon
             q.pop_back();
             if (!up(id)) down(id);
             obj->idx = -1;
+            verif_dump(verif_pop, obj);
             return 0;
         }
+#ifdef PHOTON_VERIF
+        enum { verif_push = verif::HEAP_PUSH, verif_pop = verif::HEAP_POP, verif_pop_front = verif::HEAP_POP_FRONT };
+        void verif_dump(int point, thread* obj);    // reports the operation, then the whole array
+#else
+        enum { verif_push, verif_pop, verif_pop_front };
+        void verif_dump(int, thread*) { }
+#endif
 
         void update_node(int idx, thread *&obj)
         {
@@ -481,6 +498,16 @@ namespace photon
             return ret;
         }
     };
+
+#ifdef PHOTON_VERIF
+    inline void SleepQueue::verif_dump(int point, thread* obj) {
+        if (!verif::hook) return;
+        PHOTON_VERIF_POINT(point, obj, obj->ts_wakeup, obj->idx);
+        for (size_t i = 0; i < q.size(); ++i)
+            PHOTON_VERIF_POINT(verif::HEAP_ELEM, q[i], q[i]->ts_wakeup, ((uint64_t)(uint32_t)q[i]->idx << 32) | i);
+        PHOTON_VERIF_POINT(verif::HEAP_END, this, q.size(), 0);
+    }
+#endif
 
     // A special spinlock that distinguishes a foreground vCPU among
     // background vCPUs, and makes the foreground as fast as possible.
@@ -1003,6 +1030,7 @@ R"(
         // current from run-queue.
         lock.lock();
         state = states::DONE;
+        PHOTON_VERIF_POINT(verif::DIE, this, get_vcpu(), is_joinable());
         cond.notify_one();
         get_vcpu()->nthreads--;
         auto sw = AtomicRunQ().remove_current(states::DONE);
@@ -1080,6 +1108,7 @@ R"(
         th->vcpu = arq.vcpu;
         arq.vcpu->nthreads++;
         arq.insert_tail(th);
+        PHOTON_VERIF_POINT(verif::CREATE, th, arq.vcpu, flags);
         return th;
     }
 
@@ -1273,6 +1302,7 @@ R"(
                 assert(th->state == states::STANDBY);
                 th->state = states::READY;
                 sleepq.pop(th);
+                PHOTON_VERIF_POINT(verif::STANDBY_DRAIN, th, 0, 0);
                 count++;
             }
         }
@@ -1288,6 +1318,7 @@ R"(
             sleepq.pop_front();
             if (likely(th->state == states::SLEEPING)) {
                 th->dequeue_ready_atomic();
+                PHOTON_VERIF_POINT(verif::WAKE_TIMEOUT, th, now, 0);
                 list.push_back(th);
                 count++;
             } else assert(({ // th got interrupted just after standbyq.eject_whole_atomic()
@@ -1317,8 +1348,10 @@ insert_list:
         RunQ rq;
         if_update_now();
         rq.current->error_number = 0;
+        PHOTON_VERIF_POINT(verif::YIELD, rq.current, 0, 0);
         auto sw = AtomicRunQ(rq).goto_next();
         switch_context(sw.from, sw.to);
+        PHOTON_VERIF_POINT(verif::YIELD_RET, rq.current, rq.current->error_number, 0);
         return rq.current->error_number;
     }
 
@@ -1351,10 +1384,17 @@ insert_list:
         auto sw = AtomicRunQ(rq).try_goto(th);
         if_update_now();
         rq.current->error_number = 0;
+        PHOTON_VERIF_POINT(verif::YIELD, rq.current, (uint64_t)th, 0);
         switch_context(sw.from, sw.to);
+        PHOTON_VERIF_POINT(verif::YIELD_RET, rq.current, rq.current->error_number, 0);
         return rq.current->error_number;
     }
 
+    inline int verif_resume(thread* th, int ret) {
+        PHOTON_VERIF_POINT(verif::RESUME, th, (int64_t)ret, ret < 0 ? errno : 0);
+        (void)th;
+        return ret;
+    }
     __attribute__((always_inline)) inline
     Switch prepare_usleep(Timeout timeout, thread_list* waitq, RunQ rq = {})
     {
@@ -1370,6 +1410,7 @@ insert_list:
         if_update_now(true);
         sw.from->ts_wakeup = timeout.expiration();
         sw.from->get_vcpu()->sleepq.push(sw.from);
+        PHOTON_VERIF_POINT(verif::SLEEP, sw.from, waitq, sw.from->ts_wakeup);
         return sw;
     }
     inline int yield_as_sleep() {
@@ -1387,7 +1428,7 @@ insert_list:
         auto r = prepare_usleep(timeout, waitq);
         switch_context(r.from, r.to);
         assert(r.from->waitq == nullptr);
-        return r.from->set_error_number();
+        return verif_resume(r.from, r.from->set_error_number());
     }
 
     static int thread_usleep_defer(Timeout timeout,
@@ -1396,7 +1437,7 @@ insert_list:
         auto r = prepare_usleep(timeout, waitq);
         switch_context_defer(r.from, r.to, defer, defer_arg);
         assert(r.from->waitq == nullptr);
-        return r.from->set_error_number();
+        return verif_resume(r.from, r.from->set_error_number());
     }
 
     __attribute__((noinline))
@@ -1405,7 +1446,7 @@ insert_list:
         auto r = prepare_usleep(timeout, nullptr, rq);
         switch_context_defer(r.from, r.to, defer, defer_arg);
         assert(r.from->waitq == nullptr);
-        return r.from->set_error_number();
+        return verif_resume(r.from, r.from->set_error_number());
     }
     static int do_shutdown_usleep_defer(Timeout timeout,
                 defer_func defer, void* defer_arg, RunQ rq) {
@@ -1436,7 +1477,7 @@ insert_list:
         auto r = prepare_usleep(timeout, nullptr, rq);
         switch_context(r.from, r.to);
         assert(r.from->waitq == nullptr);
-        return r.from->set_error_number();
+        return verif_resume(r.from, r.from->set_error_number());
     }
     static int do_shutdown_usleep(Timeout timeout, RunQ rq) {
         timeout.timeout_at_most(10 * 1000);
@@ -1464,6 +1505,7 @@ insert_list:
         assert(th != CURRENT);
         th->error_number = error_number;
         RunQ rq;
+        PHOTON_VERIF_POINT(verif::WAKE_INTR, th, (int64_t)error_number, rq.current && vcpu == rq.current->get_vcpu());
         if (unlikely(!rq.current || vcpu != rq.current->get_vcpu())) {
             th->dequeue_ready_atomic(states::STANDBY);
             vcpu->move_to_standbyq_atomic(th);
@@ -1480,6 +1522,7 @@ insert_list:
         auto state = th->state;
         if (unlikely(state != states::SLEEPING)) {
         out: // may have thread_yield()-ed
+            PHOTON_VERIF_POINT(verif::INTR_NOSLEEP, th, (uint64_t)state | ((uint64_t)(state == states::READY && th->error_number == 0) << 16), (int64_t)error_number);
             if (state == states::READY && th->error_number == 0)
                 th->error_number = error_number;
             return;
@@ -1552,6 +1595,7 @@ insert_list:
             th->cond.wait(th->lock);
         }
         auto retval = th->retval;
+        PHOTON_VERIF_POINT(verif::JOIN_RET, th, retval, 0);
         th->dispose();
         return retval;
     }
@@ -1795,6 +1839,7 @@ insert_list:
         thread* ptr = nullptr;
         bool ret = owner.compare_exchange_strong(ptr, CURRENT,
             std::memory_order_acq_rel, std::memory_order_relaxed);
+        PHOTON_VERIF_POINT(verif::MUTEX_TRY, this, ret, CURRENT);
         return (int)ret - 1;
     }
     inline void do_mutex_unlock(mutex* m)
@@ -1802,6 +1847,7 @@ insert_list:
         SCOPED_LOCK(m->splock);
         ScopedLockHead h(m);
         m->owner.store(unlikely(m->_contending) ? nullptr : (thread*)h);
+        PHOTON_VERIF_POINT(verif::MUTEX_UNLOCK, m, m->owner.load(), (thread*)h);
         if (h)
             prelocked_thread_interrupt(h, -1);
     }
@@ -1916,6 +1962,7 @@ insert_list:
             auto& c = th->semaphore_count;
             if (c > cnt) break;
             cnt -= c;
+            PHOTON_VERIF_POINT(verif::SEM_RESUME, this, c, th);
             prelocked_thread_interrupt(th, -1);
         }
         if (!q.th || !cnt || !m_ooo_resume)
@@ -1928,6 +1975,7 @@ insert_list:
             auto& c = th->semaphore_count;
             if (c <= cnt) {
                 cnt -= c;
+                PHOTON_VERIF_POINT(verif::SEM_RESUME, this, c, th);
                 prelocked_thread_interrupt(th, -1);
             }
         }
@@ -1935,11 +1983,15 @@ insert_list:
     inline bool semaphore::try_subtract(uint64_t count) {
         while(true) {
             auto mc = m_count.load();
-            if (mc < count)
+            if (mc < count) {
+                PHOTON_VERIF_POINT(verif::SEM_SUB, this, count, 0);
                 return false;
+            }
             auto new_mc = mc - count;
-            if (m_count.compare_exchange_strong(mc, new_mc))
+            if (m_count.compare_exchange_strong(mc, new_mc)) {
+                PHOTON_VERIF_POINT(verif::SEM_SUB, this, count, 1);
                 return true;
+            }
         }
     }
     int rwlock::lock(int mode, Timeout timeout)
